@@ -63,6 +63,14 @@ def run(pid, tier):
         log("[%s] leg A: the MODEL violates %s (hypothesis about the code): %s" % (
             pid, a["violated"], chan.seq_key(inv, model_cex)))
 
+    # ---- unbounded: TLAPS proof of the abstraction + TLC refinement check (C01, C02)
+    if pid in ("C01", "C02"):
+        pr = chan.holder_abs_proof_and_refinement(2 if quick else 3, workers=8 if quick else 14)
+        cov["legs"]["P_tlaps_proof_and_refinement"] = pr
+        if pr["refinement_violated"]:
+            log("[%s] NOTE: Channel.tla no longer refines HolderAbs.tla (%s): the unbounded proof does not transfer; "
+                "the bounded legs still decide" % (pid, pr["refinement_violated"]))
+
     # ---- leg B: implementation state graph, one side (quick) + product (thorough) + stub
     runs = [(SIDE[pid], 4 if quick else 6, "full", "ready"), ("all", 1, "full", "stub")]
     if not quick:
